@@ -92,8 +92,33 @@ def generate_z():
     return py2coq.translate(SOLVER(), ZSLICES, "Z")
 
 
+SKELETON = os.path.join(os.path.dirname(os.path.abspath(__file__)), "solver_skeleton.json")
+
+
+def current_skeleton():
+    import skeleton
+    return skeleton.module_skeleton(SOLVER(), [SST, IVP], SLICES + ZSLICES)
+
+
+def check_skeleton(ctx):
+    """every statement of solver.py's two functions and its module level is either bridged or exactly the expected one"""
+    import json
+    import skeleton
+    try:
+        got = current_skeleton()
+    except Exception as e:  # fail closed
+        ctx.obligation("structure:solver-skeleton", False, "skeleton extraction failed: %s" % e)
+        return False
+    want = json.load(open(SKELETON))
+    diffs = skeleton.compare(got, want)
+    ctx.obligation("structure:solver-skeleton", not diffs,
+                   "" if not diffs else "statements of bldfm/solver.py differ from the ones the model describes (bridged expressions excluded):\n" + "\n".join(diffs)[:1400])
+    return not diffs
+
+
 def run(ctx):
     """translate + compile + bridge; registers proof obligations on ctx"""
+    check_skeleton(ctx)
     try:
         text = generate()
     except py2coq.TranslateError as e:
